@@ -12,9 +12,10 @@ ARITH = {"Add": "bvadd", "Sub": "bvsub", "Mul": "bvmul", "BitAnd": "bvand", "Bit
 
 
 class Encoder:
-    def __init__(self):
+    def __init__(self, std_models=False):
         self.leaves = {}      # term -> (name, sort)
         self.order = []
+        self.std_models = std_models
 
     def leaf(self, t, sort="(_ BitVec 64)"):
         if t not in self.leaves:
@@ -50,6 +51,17 @@ class Encoder:
                 return "(ite %s #x0000000000000001 #x0000000000000000)" % self.boolean(t)
             if op in ("AddWithOverflow", "SubWithOverflow", "MulWithOverflow"):
                 return self.leaf(t)
+        if k == "app" and self.std_models and len(t[2]) == 2:
+            # std integer helpers with their documented meaning (usize)
+            if t[1].endswith("usize>::saturating_sub"):
+                a, b = self.bv(t[2][0]), self.bv(t[2][1])
+                return "(ite (bvuge %s %s) (bvsub %s %s) #x0000000000000000)" % (a, b, a, b)
+            if t[1].endswith("<usize as std::cmp::Ord>::min"):
+                a, b = self.bv(t[2][0]), self.bv(t[2][1])
+                return "(ite (bvule %s %s) %s %s)" % (a, b, a, b)
+            if t[1].endswith("<usize as std::cmp::Ord>::max"):
+                a, b = self.bv(t[2][0]), self.bv(t[2][1])
+                return "(ite (bvuge %s %s) %s %s)" % (a, b, a, b)
         if k == "proj" and t[2] == ".0" and t[1][0] == "op" and t[1][1] in (
                 "AddWithOverflow", "SubWithOverflow", "MulWithOverflow"):
             o = {"AddWithOverflow": "bvadd", "SubWithOverflow": "bvsub",
